@@ -258,6 +258,16 @@ func ProbesFor(prop string) []string {
 func RuleOf(prop string) string {
 	base := "one evaluation = one seeded run: configuration (capacities, component-ID offset, registration order, type subset, enabled fault kinds) and an op/fault history of 20-1500 ops drawn online from the per-run PRNG stream against the reference model, executed on a real ark world with per-op oracles; distinct = distinct abstract end-state hash (multiset of component-set/relation-shape/size-bucket, registered filters, observers, open queries) among non-trivial runs; non-trivial for this property = "
 	switch prop {
+	case "C12":
+		return "one evaluation = one seeded history (as for the other properties, with relation-heavy op weights) executed 8 times in one process and once in each of 3 fresh processes (new map hash seeds); all result traces (handles, every query's visit order, Stats dumps, panic yes/no) must be byte-identical; non-trivial = more than 10 ops; distinct = distinct abstract end-state hash"
+	case "C20":
+		return "one evaluation = one seeded history restricted to 64 component IDs, including misuse calls (query access before Next / after exhaustion / after Close, Next after exhaustion, missing components), executed by the four binaries {}, ark_tiny, ark_debug, ark_tiny+ark_debug; result traces and panic/no-panic per call must be identical; non-trivial = more than 10 ops; distinct = distinct abstract end-state hash"
+	case "C13":
+		return "one evaluation = one session: a world built by seeded engine-A ops, then 1-4 rounds of 2-64 simulated goroutines (real goroutines parked on raw pipes; the seeded baton scheduler decides who runs at every lock hook and between API calls) running Query/Count/EntityAt/Next/Get/Close scripts over shared or private, cached or uncached filters with relation partitions, under the Go race detector; between rounds further ops create archetypes; non-trivial = at least one preemption inside a LockSafe critical section and one first use of a shared filter; distinct_nontrivial counts distinct abstract world states among those sessions, distinct_schedules the distinct schedule traces"
+	case "C14":
+		return base + "more than 3 entities exist; odd runs are twin runs (typed adapters vs ID-based API) compared op by op; api_calls lists every adapter method with its call count"
+	case "C18":
+		return base + "a registration-capacity scenario or a resource operation ran"
 	case "C01":
 		return base + "at least one swap-remove with swap, one table growth and one batch move happened (reach probes)"
 	case "C02":
